@@ -80,8 +80,14 @@ def domain(v, graft, ignored_dims):
     return d
 
 
-def construct(v, graft, ignored_dims, soap):
-    """Build the configs and the optimizer from the value dict; returns (raised_exception_or_None, optimizer)."""
+FLAG_DEFAULTS = dict(use_nesterov=False, use_bias_correction=True, use_decoupled_weight_decay=True, use_merge_dims=True)
+
+
+def construct(v, graft, ignored_dims, soap, flags=None):
+    """Build the configs and the optimizer from the value dict; returns (raised_exception_or_None, optimizer).  `flags`: the boolean options
+    (they are not part of the documented domain: no value of them may turn an in-domain combination into a rejection)."""
+    fl = dict(FLAG_DEFAULTS)
+    fl.update(flags or {})
     import torch
     from distributed_shampoo.distributed_shampoo import DistributedShampoo
     from distributed_shampoo.shampoo_types import (AdaGradGraftingConfig, AdamGraftingConfig, RMSpropGraftingConfig, SGDGraftingConfig,
@@ -106,7 +112,7 @@ def construct(v, graft, ignored_dims, soap):
                                  momentum=v["momentum"], dampening=v["dampening"], weight_decay=v["weight_decay"],
                                  max_preconditioner_dim=v["max_preconditioner_dim"], precondition_frequency=v["precondition_frequency"],
                                  start_preconditioning_step=v["start_preconditioning_step"], inv_root_override=iro,
-                                 grafting_config=g, preconditioner_config=pc)
+                                 grafting_config=g, preconditioner_config=pc, **fl)
         return None, opt
     except (ValueError, NotImplementedError) as e:
         return e, None
@@ -124,7 +130,17 @@ def make(cfg):
         v = dict(base)
         for n in sym:
             v[n] = symx.symfp(n) if n in FLOATS else symx.symint(n)
-        exc, opt = construct(v, graft, ign, soap)
+        import logging
+
+        prev = logging.root.manager.disable
+        if cfg.get("logging_enabled"):
+            logging.disable(logging.NOTSET)  # the default for a user: warnings are emitted (the harness normally silences them)
+            if not logging.getLogger().handlers:
+                logging.getLogger().addHandler(logging.NullHandler())
+        try:
+            exc, opt = construct(v, graft, ign, soap, cfg.get("flags"))
+        finally:
+            logging.disable(prev)
         dom = domain(v, graft, ign)
         if twin == "accept-beta1-one" and "beta1" in sym:
             dom = OR(dom, AND(dom_without(v, graft, ign, "beta1"), v["beta1"] == 1.0))
@@ -186,6 +202,18 @@ def jobs_for(tier):
         for ign in ([], [0]):
             jobs.append(dict(id=f"j{n}", module="checks.c17", factory="make", cfg=dict(sym=list(s), base=1, graft=None, ignored=ign, soap=False, iro_list=True)))
             n += 1
+    # acceptance and the -1 substitutions must not depend on whether the library's warnings are emitted
+    for s in (("start_preconditioning_step", "precondition_frequency"), ("beta3", "beta1"), ("momentum",), ("epsilon",)):
+        jobs.append(dict(id=f"j{n}", module="checks.c17", factory="make", cfg=dict(sym=list(s), base=1, graft="adam", ignored=[], soap=False, logging_enabled=True)))
+        n += 1
+    # the boolean options flipped (baseline 1 has momentum, dampening and weight decay non-zero): same domain
+    for flags in (dict(use_nesterov=True), dict(use_bias_correction=False, use_decoupled_weight_decay=False), dict(use_merge_dims=False, use_nesterov=True)):
+        syms = [("momentum",), ("dampening",), ("momentum", "dampening"), ("beta1", "beta3"), ("weight_decay", "lr"), ("epsilon",), ("max_preconditioner_dim",)]
+        if tier == "thorough":
+            syms = [(x,) for x in FLOATS + INTS if not x.startswith("iro_list")] + [("momentum", "dampening"), ("beta1", "beta3"), ("weight_decay", "lr")]
+        for s in syms:
+            jobs.append(dict(id=f"j{n}", module="checks.c17", factory="make", cfg=dict(sym=list(s), base=1, graft="adam", ignored=[], soap=False, flags=flags)))
+            n += 1
     return jobs
 
 
@@ -225,6 +253,39 @@ def unsupported_configs():
             out.append((name, "NotImplementedError"))
         except Exception as e:
             out.append((name, type(e).__name__))
+    # the same configs given per parameter group (param-group dicts may carry their own configs)
+    for name, key, obj in (("preconditioner-in-group", "preconditioner_config", MyPrec()), ("grafting-in-group", "grafting_config", MyGraft())):
+        w1 = torch.nn.Parameter(torch.zeros((2, 2), dtype=torch.float32))
+        w2 = torch.nn.Parameter(torch.zeros((2, 2), dtype=torch.float32))
+        try:
+            DistributedShampoo([dict(params=[w1]), {"params": [w2], key: obj}])
+            out.append((name, "accepted"))
+        except NotImplementedError:
+            out.append((name, "NotImplementedError"))
+        except Exception as e:
+            out.append((name, type(e).__name__))
+    return out
+
+
+def sequence_overrides():
+    """inv_root_override is documented as int | Sequence[int]: every Sequence type is validated entry by entry (concrete cases, both backends).
+    Returns [(description, expected, observed)]."""
+    import collections
+    import torch
+    from distributed_shampoo.distributed_shampoo import DistributedShampoo
+
+    out = []
+    for desc, ov, ok in (("tuple (2, 2)", (2, 2), True), ("range(2, 4)", range(2, 4), True), ("UserList([2, 2])", collections.UserList([2, 2]), True),
+                         ("tuple (2, -1)", (2, -1), False), ("UserList([2, -1])", collections.UserList([2, -1]), False), ("range(-1, 1)", range(-1, 1), False)):
+        w = torch.nn.Parameter(torch.zeros((2, 2), dtype=torch.float32))
+        try:
+            DistributedShampoo([w], inv_root_override=ov)
+            got = "accepted"
+        except ValueError:
+            got = "ValueError"
+        except Exception as e:
+            got = type(e).__name__
+        out.append((desc, "accepted" if ok else "ValueError", got))
     return out
 
 
@@ -270,6 +331,11 @@ def run(tier, seed, argv):
     for name, got in un:
         if got != "NotImplementedError":
             rep.violations.append(dict(label=f"unsupported-{name}-config", info=dict(signature=dict(kind="unsupported-config", which=name)), model={}, job="concrete"))
+    so = sequence_overrides()
+    rep.extra["sequence_override_cases"] = so
+    for desc, exp, got in so:
+        if exp != got:
+            rep.violations.append(dict(label=f"inv_root_override given as {desc}: expected {exp}, constructor {got}", info=dict(signature=dict(kind="sequence-override", which=desc)), model={}, job="concrete"))
     return rep.finish("checks.c17")
 
 
@@ -281,6 +347,10 @@ def replay(record):
 
         n, bad = c17_real.run_pass()
         return bool(bad), f"{n} boundary cases through the real constructor: {bad[:2] if bad else 'all agree with the documented domain'}"
+    if (info.get("signature") or {}).get("kind") == "sequence-override":
+        so = {d: (e, g) for d, e, g in sequence_overrides()}
+        e, g = so[info["signature"]["which"]]
+        return e != g, f"inv_root_override {info['signature']['which']}: expected {e}, real constructor {g}"
     if (info.get("signature") or {}).get("kind") == "unsupported-config":
         un = dict(unsupported_configs())
         w = info["signature"]["which"]
@@ -298,7 +368,7 @@ def replay(record):
         else:
             x = int(x)
         v[n] = x
-    exc, opt = construct(v, cfg["graft"], tuple(cfg["ignored"]), cfg["soap"])
+    exc, opt = construct(v, cfg["graft"], tuple(cfg["ignored"]), cfg["soap"], cfg.get("flags"))
     dom = bool(domain(v, cfg["graft"], tuple(cfg["ignored"])))
     txt = f"values={ {k: v[k] for k in cfg['sym']} } documented-domain={dom} constructor={'raised ' + repr(exc)[:80] if exc is not None else 'accepted'}"
     bad = (exc is None) != dom
